@@ -25,7 +25,7 @@ COMPONENTS = {"real": ["ECAgent.Core.Environment add_agent / remove_agent / get_
               "stub": ["agents and component classes are harness-defined"]}
 PROBES = ["dup_same_object", "dup_other_object", "unknown_remove", "unknown_strict_lookup", "oob_x_lo", "oob_x_hi",
           "oob_y_lo", "oob_y_hi", "oob_z_lo", "oob_z_hi", "oob_far", "reject_on_empty_environment", "remove_from_middle",
-          "readd_after_remove", "plain_env", "spatial_env"]
+          "readd_after_remove", "plain_env", "spatial_env", "model_lifecycle_op", "caller_scrambles_listing"]
 TECHNIQUE = "deterministic simulation: every rejection injected at states reached by seeded add/remove histories, full observable snapshot compared before/after, insertion-ordered map reference"
 LEVEL_TEXT = ("Seeded search over add/remove histories with colliding ids; after every operation length, iteration, listing and "
               "lookup must agree with an insertion-ordered reference; each injected rejection must raise the documented class "
@@ -53,6 +53,7 @@ KT = [K0, K1, K2]
 
 def generate(rng, tier):
     world = gen_world(rng, kinds=("plain", "plain", "space", "space", "discrete", "grid", "line"), subunit=0.2)
+    world["attached"] = rng.random() < 0.8
     ids = [f"i{j}" for j in range(rng.randint(1, 5))]
     pool = [{"id": rng.choice(ids), "comps": sorted(rng.sample(range(3), rng.randint(0, 3)))} for _ in range(rng.randint(2, 16 if tier == "thorough" else 10))]
     ops = []
@@ -70,8 +71,12 @@ def generate(rng, tier):
         elif r < 0.86:
             ops.append({"op": "oob", "k": k, "axis": rng.randrange(3), "side": rng.choice(["lo", "hi"]),
                         "far": rng.random() < 0.3, "frac": [rng.random() for _ in range(3)]})
-        else:
+        elif r < 0.93:
             ops.append({"op": "observe"})
+        elif r < 0.96:
+            ops.append({"op": "scramble", "how": rng.choice(["reverse", "clear", "pop", "shuffle", "pick", "iter"])})
+        else:
+            ops.append({"op": "lifecycle", "what": rng.choice(["step", "complete"])})
     return {"world": world, "pool": pool, "ops": ops}
 
 
@@ -224,6 +229,30 @@ def execute(sc, ctx):
             rejected("add-out-of-bounds", Exception, env.add_agent, a, *ref.real(p))
             shape.append(["oob", ax, op["side"], len(residents)])
             ctx.event("oob", k, p)
+        elif kind == "lifecycle":
+            # membership does not depend on the model's lifecycle (a completed model is falsy, an agent without components too)
+            ctx.expect_ok("lifecycle", m.complete if op["what"] == "complete" else m.execute)
+            ctx.probe("model_lifecycle_op")
+        elif kind == "scramble":
+            # the caller edits the list it got back, or uses the helpers that work on such a list; the environment's own
+            # listing, iteration and lookups must be unaffected
+            how = op["how"]
+            if how in ("reverse", "clear", "pop"):
+                lst = ctx.expect_ok("get_agents", env.get_agents)
+                if how == "reverse":
+                    lst.reverse()
+                elif how == "clear":
+                    lst.clear()
+                elif lst:
+                    lst.pop(0)
+            elif how == "shuffle":
+                ctx.expect_ok("shuffle", env.shuffle)
+            elif how == "pick":
+                ctx.expect_ok("get_random_agent", env.get_random_agent)
+            else:
+                for _ in env:
+                    break
+            ctx.probe("caller_scrambles_listing")
         elif kind == "observe":
             pass
         if len(residents) >= 3:
